@@ -7,7 +7,7 @@ cd "$(dirname "$0")"; ROOT=$(pwd)
 T=$(dirname "$(rustc +nightly --print target-libdir)")/bin
 [ -x "$T/llvm-profdata" ] || { echo "llvm-tools not found under $T"; exit 2; }
 D=/tmp/ksim-cov-$$; mkdir -p $D/prof
-(cd sim && CARGO_TARGET_DIR=$D/target RUSTFLAGS="-C instrument-coverage" cargo +nightly build --offline --profile checked >/dev/null 2>&1) || { echo "build failed"; exit 2; }
+(cd sim && LLVM_PROFILE_FILE=$D/build-%p-%m.profraw CARGO_TARGET_DIR=$D/target RUSTFLAGS="-C instrument-coverage" cargo +nightly build --offline --profile checked >/dev/null 2>&1) || { echo "build failed"; exit 2; }
 BIN=$D/target/checked/ksim; export LLVM_PROFILE_FILE=$D/prof/%p-%m.profraw
 run() { $BIN miri-batch $1 $2 20261001 0 40000 >/dev/null 2>&1; $BIN miri-batch $1 $2 1 0 100000 --sweep >/dev/null 2>&1; }
 for p in C13 C14 C01; do run parser $p; done
@@ -19,4 +19,22 @@ for p in C15 C11 C01; do run byvalue $p; done
 $T/llvm-profdata merge -sparse $D/prof/*.profraw -o $D/cov.profdata
 $T/llvm-cov report $BIN -instr-profile=$D/cov.profdata --ignore-filename-regex='(registry|rustc|/verif/|rustlib)' 2>/dev/null \
   | awk 'NR>2 && $1 !~ /^-+$/ {printf "%-58s regions %5s missed %5s covered %8s | lines %5s missed %5s covered %8s\n", $1, $2, $3, $4, $8, $9, $10}' | tee coverage_last.txt
+# line-level: which source lines were executed at least once (used by mutants/auto.py to skip dead code)
+python3 - "$T" "$BIN" "$D/cov.profdata" <<'PY'
+import subprocess, sys, json, re, glob
+T, BIN, PROF = sys.argv[1:4]
+out = {}
+files = [f for pat in ('/repo/konst/src/**/*.rs', '/repo/konst_kernel/src/**/*.rs') for f in glob.glob(pat, recursive=True)]
+for f in files:
+    txt = subprocess.run([T + '/llvm-cov', 'show', BIN, '-instr-profile=' + PROF, f], capture_output=True, text=True).stdout
+    cov = []
+    for line in txt.split('\n'):
+        m = re.match(r'\s*(\d+)\|\s*([0-9.]+[kKMG]?)\|', line)
+        if m and m.group(2) not in ('0',):
+            cov.append(int(m.group(1)))
+    if cov:
+        out[f.replace('/repo/', '')] = cov
+json.dump(out, open('/verif/coverage_lines.json', 'w'))
+print('covered lines recorded for', len(out), 'files')
+PY
 rm -rf $D
